@@ -280,6 +280,7 @@ _NS = "nessai/samplers/nestedsampler.py"
 _INS = "nessai/samplers/importancesampler.py"
 _FP = "nessai/proposal/flowproposal.py"
 MUTANTS = [
+    {"id": "attr-read-before-conditional-write", "file": "nessai/gw/reparameterisations.py", "old": "        if self.boundary_inversion:\n            self.detect_edges_kwargs[\"allowed_bounds\"] = allowed_bounds\n", "new": "        if True:\n            self.detect_edges_kwargs[\"allowed_bounds\"] = allowed_bounds\n", "expect": "is written before it is read on every path"},
     {"id": "stale-attr-self", "file": _NS, "old": "            self.reset_acceptance\n            and self.mean_block_acceptance", "new": "            self.reset_on_acceptance\n            and self.mean_block_acceptance", "expect": "read self.reset_on_acceptance"},
     {"id": "stale-attr-typed-field", "file": _NS, "old": "self.proposal.ns_acceptance = self.mean_block_acceptance\n            self.uninformed_sampling = False", "new": "self.proposal.ns_acceptance = self.proposal.mean_block_acceptance\n            self.uninformed_sampling = False", "expect": "read self.proposal.mean_block_acceptance"},
     {"id": "stale-attr-ins-proposal", "file": _INS, "old": "minlength=(self.proposal.n_proposals),", "new": "minlength=(self.proposal.n_levels),", "expect": "read self.proposal.n_levels"},
